@@ -1,6 +1,6 @@
 #!/usr/bin/env python3
 """reads evidence files of a seed sweep (dirs given as arguments, one per run: <dir>/<PROP>.json) and writes
-hivemon/checks/floors.json: for every floor name the minimum is set to 40 % of the smallest value observed
+hivemon/checks/floors.json: for every floor name the minimum is set to 40 % of the smallest value observed (30 % with fewer than four runs, 20 % for counters below 100)
 (deterministic set sizes: smallest observed minus 2). usage: calibrate_floors.py quick|thorough dir [dir ...]"""
 import glob
 import json
@@ -22,7 +22,12 @@ for d in sys.argv[2:]:
 for prop, names in sorted(seen.items()):
     for name, vals in sorted(names.items()):
         lo = min(vals)
-        new = max(1, int(0.7 * lo)) if name.startswith("set:") or name in ("scenarios",) else max(1, int(0.4 * lo))
+        # counters: 40 % of the smallest value seen (30 % when fewer than four runs were seen, 20 % for counters below 100,
+        # whose relative spread from seed to seed is large)
+        factor = 0.4 if len(vals) >= 4 else 0.3
+        if lo < 100:
+            factor = min(factor, 0.2)
+        new = max(1, int(0.7 * lo)) if name.startswith("set:") or name in ("scenarios",) else max(1, int(factor * lo))
         floors.setdefault(prop, {}).setdefault(tier, {})[name] = new
         print(prop, tier, name, "observed", sorted(vals), "->", new)
 json.dump(floors, open(path, "w"), indent=1, sort_keys=True)
